@@ -153,6 +153,31 @@ def noptr(t):
     return t
 
 
+def fully_compressed(t):
+    """no removed slot in any object and no undefined element in any array, at every depth."""
+    if t[0] == "a":
+        return all(x != ("U",) and fully_compressed(x) for x in t[1])
+    if t[0] == "o":
+        return all(kv is not None and fully_compressed(kv[1]) for kv in t[2])
+    return True
+
+
+def py_compress(t):
+    if t[0] == "a":
+        return ("a", [py_compress(x) for x in t[1] if x != ("U",)])
+    if t[0] == "o":
+        return ("o", "", [(kv[0], py_compress(kv[1])) for kv in t[2] if kv is not None])
+    return t
+
+
+def nocap(t):
+    if t[0] == "a":
+        return ("a", [nocap(x) for x in t[1]])
+    if t[0] == "o":
+        return ("o", "", [None if kv is None else (kv[0], nocap(kv[1])) for kv in t[2]])
+    return t
+
+
 def dbits(x):
     return "%016x" % struct.unpack("<Q", struct.pack("<d", float(x)))[0]
 
@@ -216,6 +241,14 @@ def check_laws(ops, impl_line):
                         out.append(("copy-content", "after '%s' the target is %r, the source was %r" % (op, node, src_before)))
                     if noptr(cur[sr]) != noptr(prev[sr]):
                         out.append(("copy-independence", "'%s' changed its source" % op))
+        if name == "cmp":
+            node = navigate(cur[tr], tp, True)
+            if node is not None and not fully_compressed(node):
+                out.append(("compress", "after '%s' the target still holds a removed slot or an undefined element at some depth: %r" % (op, node)))
+            if not tp:
+                want = py_compress(prev[tr])
+                if nocap(noptr(cur[tr])) != nocap(noptr(want)):
+                    out.append(("compress", "after '%s' the root is %r, expected the live members in order: %r" % (op, cur[tr], want)))
         if name == "rem" and not tp and prev[tr][0] == "o":
             key = t[2]
             before = [kv for kv in prev[tr][2] if kv is not None and kv[0] != key]
